@@ -9,9 +9,17 @@
     at least one finding or an error") is proved for the whole parser on plain streams and for the
     whole builder ([C08_parser_fail_errs_exactly_when_warn_finds_or_errs],
     [C08_builder_...]): the run under fail and the run under warn proceed in lock step until the
-    first finding, stage by stage (Proofs/SyncProofs.v, Proofs/SyncPipeProofs.v).  Not mechanised:
-    the last sentence (axis-by-axis monotonicity under mixed settings) and the gzip container;
-    they are evaluated on the implementation (all 81 axis settings for every generated input). *)
+    first finding, stage by stage (Proofs/SyncProofs.v, Proofs/SyncPipeProofs.v).  The last sentence
+    (axis-by-axis monotonicity) is proved for the header parser along the syntax axis and for
+    header validation along its two axes ([C08_header_parser_rejection_is_monotone],
+    [C08_header_validation_rejection_is_monotone], Proofs/MonoProofs.v), and REFUTED for the whole
+    parser when the warc-fields block repair is on ([C08_axis_monotonicity_refuted_by_block_repair]):
+    the block is only repaired when the syntax policy makes its problems visible, so a record
+    that declares the digest of the repaired block is rejected under syntax=ignore, accepted under
+    warn and rejected under fail.  The attempt to prove the sentence produced this witness; the
+    implementation behaves the same (known finding wfblock-repair-nonmonotone).  Not mechanised:
+    the last sentence for the remaining stages with that repair off, and the gzip container; they
+    are evaluated on the implementation (all axis settings for every generated input). *)
 Require Import Model.Bytes Model.FieldDef Gen.FieldTable Model.Fields Model.Policy Model.Validate Model.Digest Model.Record.
 Require Import Model.Stream Proofs.NormalizeProofs Proofs.ValidateProofs Proofs.RecordProofs Proofs.PolicyProofs Proofs.SyncPipeProofs.
 Local Open Scope N_scope.
@@ -111,3 +119,55 @@ Theorem C08_builder_fail_errs_exactly_when_warn_finds_or_errs :
     is_ok (run Fail) = false <-> (findings_of (run Warn) <> [] \/ is_ok (run Warn) = false).
 Proof. intros. apply build_fail_errs_iff_warn_finds_or_errs; [exact gen_table_ok|assumption]. Qed.
 Print Assumptions C08_builder_fail_errs_exactly_when_warn_finds_or_errs.
+
+(** the last sentence, stage theorems: rejected under a lenient level, rejected under every
+    stricter one *)
+Require Import Model.HeaderParse Proofs.MonoProofs.
+Theorem C08_header_parser_rejection_is_monotone :
+  forall uni_lower mime_dec p q s, stricter p q ->
+    is_ok (parse_fields field_table uni_lower mime_dec p s []) = false ->
+    is_ok (parse_fields field_table uni_lower mime_dec q s []) = false.
+Proof. intros. eapply parse_fields_rejection_is_monotone; eassumption. Qed.
+Print Assumptions C08_header_parser_rejection_is_monotone.
+
+Theorem C08_header_validation_rejection_is_monotone :
+  forall uni_lower time_ok ip_ok uri_ok wid_ok ps pu ps' pu' vid hs fs fs',
+    canonical field_table uni_lower hs -> stricter ps ps' -> stricter pu pu' ->
+    is_ok (validate_header field_table required_fields uni_lower time_ok ip_ok uri_ok wid_ok ps pu vid hs fs) = false ->
+    is_ok (validate_header field_table required_fields uni_lower time_ok ip_ok uri_ok wid_ok ps' pu' vid hs fs') = false.
+Proof. intros. eapply validate_header_rejection_is_monotone; eassumption. Qed.
+Print Assumptions C08_header_validation_rejection_is_monotone.
+
+(** accepted by the header parser under fail: the same fields under every policy *)
+Theorem C08_header_parser_strict_acceptance_is_policy_independent :
+  forall uni_lower mime_dec p s b,
+    parse_fields field_table uni_lower mime_dec Fail s [] = Ok b [] ->
+    parse_fields field_table uni_lower mime_dec p s [] = Ok b [].
+Proof. intros. apply parse_fields_strict_ok_everywhere; assumption. Qed.
+Print Assumptions C08_header_parser_strict_acceptance_is_policy_independent.
+
+(** the last sentence is false of the whole parser when the warc-fields block repair is on *)
+From Coq Require Import String.
+Definition r_id (s : bytes) := s.
+Definition r_yes (s : bytes) := true.
+Definition r_h (a : alg) (s : bytes) : bytes := s.      (* any injective "hash" will do *)
+Definition r_nodec (s : bytes) : option bytes := None.
+(* spec and unknown-type at fail, block policy ignore, all additions and repairs off except the
+   warc-fields block repair; only the syntax axis varies *)
+Definition r_opts (syn : policy) := mkopts syn Fail Fail Ignore false false false false false false false true (bs "sha1") Base16.
+Definition r_crlf : bytes := [13;10].
+(* the block "x:  y" LF has a bare line feed; repaired it reads "X: y" CR LF - the same length -
+   and the record declares the digest of that repaired block *)
+Definition r_stream : bytes :=
+  (bs "WARC/1.1" ++ r_crlf ++ bs "WARC-Type: warcinfo" ++ r_crlf ++
+   bs "WARC-Record-ID: <urn:uuid:e9a0cecc-0221-11e7-adb1-0242ac120008>" ++ r_crlf ++
+   bs "WARC-Date: 2017-03-06T04:03:53Z" ++ r_crlf ++ bs "Content-Type: application/warc-fields" ++ r_crlf ++
+   bs "Content-Length: 6" ++ r_crlf ++ bs "WARC-Block-Digest: sha1:583a20790d0a" ++ r_crlf ++ r_crlf ++
+   bs "x:  y" ++ [10] ++ r_crlf ++ r_crlf)%list.
+Definition r_run (syn : policy) :=
+  parse_record field_table required_fields r_id r_id r_yes r_yes r_yes r_yes r_nodec r_h r_nodec r_nodec r_yes r_yes
+               (r_opts syn) (mkst r_stream TEOF) [].
+Theorem C08_axis_monotonicity_refuted_by_block_repair :
+  uerr (r_run Ignore) = true /\ uerr (r_run Warn) = false /\ ufindings (r_run Warn) = [] /\ uerr (r_run Fail) = true.
+Proof. vm_compute. repeat split; reflexivity. Qed.
+Print Assumptions C08_axis_monotonicity_refuted_by_block_repair.
